@@ -1,7 +1,1465 @@
-//! C01 — stub (not built yet).
+//! C01 — certificate validation: only correctly issued certificates are
+//! accepted, and the resources of the validated result never grow.
+//!
+//! Chains TA -> CA{0..2} -> leaf are built with the library's own `TbsCert`
+//! builder and `PoolSigner`, DER-encoded, re-decoded with `Cert::decode` and
+//! validated top-down. The oracle is a small reference model (interval sets
+//! on integers, written here, no code shared with `chain.rs`).
 
 use crate::engine::*;
+use crate::gen::{dense_u128, dense_u32, pick_idx, U128};
+use crate::keys::{self, PoolSigner, POOL_SIZE};
+use chrono::{TimeZone, Utc};
+use proptest::prelude::*;
+use rpki::crypto::KeyIdentifier;
+use rpki::repository::cert::{Cert, ExtendedKeyUsage, KeyUsage, Overclaim, ResourceCert, TbsCert};
+use rpki::repository::resources::{Addr, AsBlock, Asn, IpBlock};
+use rpki::repository::tal::TalInfo;
+use rpki::repository::x509::{Time, Validity};
+use rpki::uri;
+use serde::{Deserialize, Serialize};
+use std::str::FromStr;
+
+pub const RULE: &str = "chains: random chains TA -> CA{0..2} -> leaf (EE | detached EE | router | CA) built with TbsCert + \
+PoolSigner, DER-encoded and re-decoded before validation; per certificate overclaim policy (refuse/trim), per family \
+(v4,v6,AS) missing / inherit / blocks drawn relative to the issuer's validated set (equal, strict subset, partially \
+outside incl. exactly one item past a block end, disjoint incl. adjacent, superset, touching 0/max, arbitrary \
+boundary-dense), validity window and an evaluation time (millisecond resolution) at -1s,-1ms,edge,+1ms,+1s,mid,far of \
+both edges, both strict values; oracle = reference model (time in window, TA without inherit, refuse => claimed ⊆ \
+issuer, validated = none / issuer's / claimed / claimed ∩ issuer) compared with accept/reject of validate_*_at and, on \
+accept, with v4/v6/as_resources() as sets, plus ⊆ issuer and canonical order; non-trivial = a chain with >= 1 \
+intermediate CA or any inherit / trim / overclaim. tamper: an accepted chain plus one single-point tamper of one \
+certificate (bit flip in TBS bytes, bit flip in signature value, sibling issuer with another key, signed by another \
+key, time just outside the window, AKI replaced and re-signed, SKI replaced in the TBS by DER patching and re-signed \
+with the issuer key, one claimed block replaced by one outside the issuer); oracle = rejected, except block tamper \
+under trim = accepted with the intersection; every tamper case is non-trivial.";
+
+//------------ private interval-set model ---------------------------------------
+
+type Iv = (u128, u128);
+
+/// Canonical set: ascending, disjoint, non-adjacent closed intervals.
+#[derive(Clone, Debug, PartialEq, Eq, Default)]
+struct Set(Vec<Iv>);
+
+impl Set {
+    fn from_ranges(v: &[Iv]) -> Set {
+        let mut v: Vec<Iv> = v.iter().copied().filter(|(a, b)| a <= b).collect();
+        v.sort();
+        let mut out: Vec<Iv> = Vec::new();
+        for (a, b) in v {
+            match out.last_mut() {
+                Some(last) if last.1 == u128::MAX || a <= last.1 + 1 => {
+                    if b > last.1 {
+                        last.1 = b;
+                    }
+                }
+                _ => out.push((a, b)),
+            }
+        }
+        Set(out)
+    }
+    fn is_empty(&self) -> bool {
+        self.0.is_empty()
+    }
+    fn intersection(&self, o: &Set) -> Set {
+        let (mut i, mut j) = (0, 0);
+        let mut out = Vec::new();
+        while i < self.0.len() && j < o.0.len() {
+            let (a, b) = self.0[i];
+            let (c, d) = o.0[j];
+            let lo = a.max(c);
+            let hi = b.min(d);
+            if lo <= hi {
+                out.push((lo, hi));
+            }
+            if b < d {
+                i += 1;
+            } else {
+                j += 1;
+            }
+        }
+        Set(out)
+    }
+    fn is_subset(&self, o: &Set) -> bool {
+        self.0.iter().all(|&(a, b)| o.0.iter().any(|&(c, d)| c <= a && b <= d))
+    }
+    fn complement(&self, max: u128) -> Set {
+        let mut out = Vec::new();
+        let mut next: Option<u128> = Some(0);
+        for &(a, b) in &self.0 {
+            if let Some(n) = next {
+                if a > n {
+                    out.push((n, a - 1));
+                }
+            }
+            next = if b >= max { None } else { Some(b + 1) };
+        }
+        if let Some(n) = next {
+            if n <= max {
+                out.push((n, max));
+            }
+        }
+        Set(out)
+    }
+}
+
+/// Is a foreign list in canonical form?
+fn canonical(v: &[Iv]) -> bool {
+    v.iter().all(|(a, b)| a <= b) && v.windows(2).all(|w| w[0].1 < u128::MAX && w[0].1 + 1 < w[1].0)
+}
+
+#[derive(Clone, Copy, Debug, PartialEq, Eq)]
+enum Fam {
+    V4,
+    V6,
+    As,
+}
+
+const FAMS: [Fam; 3] = [Fam::V4, Fam::V6, Fam::As];
+
+impl Fam {
+    fn max(self) -> u128 {
+        match self {
+            Fam::V6 => u128::MAX,
+            _ => u32::MAX as u128,
+        }
+    }
+    fn name(self) -> &'static str {
+        match self {
+            Fam::V4 => "v4",
+            Fam::V6 => "v6",
+            Fam::As => "as",
+        }
+    }
+}
+
+const LOW96: u128 = (1u128 << 96) - 1;
+
+//------------ case types -------------------------------------------------------------
+
+#[derive(Clone, Debug, PartialEq, Serialize, Deserialize)]
+pub enum Res {
+    Missing,
+    Inherit,
+    /// Pre-normalised (ascending, disjoint, non-adjacent) closed ranges in the
+    /// family's own integer space (IPv4 and AS: 32 bits).
+    Blocks(Vec<(U128, U128)>),
+}
+
+impl Res {
+    fn from_set(s: &Set) -> Res {
+        if s.is_empty() {
+            Res::Missing
+        } else {
+            Res::Blocks(s.0.iter().map(|&(a, b)| (U128(a), U128(b))).collect())
+        }
+    }
+    fn set(&self) -> Set {
+        match self {
+            Res::Blocks(v) => Set::from_ranges(&v.iter().map(|(a, b)| (a.0, b.0)).collect::<Vec<_>>()),
+            _ => Set::default(),
+        }
+    }
+}
+
+#[derive(Clone, Debug, Serialize, Deserialize)]
+pub struct CertSpec {
+    /// index of the subject key (RSA pool key; P-256 key for a router leaf)
+    pub key: u8,
+    pub trim: bool,
+    pub v4: Res,
+    pub v6: Res,
+    pub asn: Res,
+    /// validity window, seconds since the epoch
+    pub nb: i64,
+    pub na: i64,
+    /// evaluation time used when this certificate is validated, milliseconds
+    pub eval_ms: i64,
+    pub serial: u64,
+}
+
+impl CertSpec {
+    fn res(&self, f: Fam) -> &Res {
+        match f {
+            Fam::V4 => &self.v4,
+            Fam::V6 => &self.v6,
+            Fam::As => &self.asn,
+        }
+    }
+    fn res_mut(&mut self, f: Fam) -> &mut Res {
+        match f {
+            Fam::V4 => &mut self.v4,
+            Fam::V6 => &mut self.v6,
+            Fam::As => &mut self.asn,
+        }
+    }
+    fn in_window(&self, eval_ms: i64) -> bool {
+        (self.nb as i128) * 1000 <= eval_ms as i128 && eval_ms as i128 <= (self.na as i128) * 1000
+    }
+}
+
+#[derive(Clone, Copy, Debug, PartialEq, Eq, Serialize, Deserialize)]
+pub enum Leaf {
+    Ee,
+    DetachedEe,
+    Router,
+    Ca,
+}
+
+#[derive(Clone, Debug, Serialize, Deserialize)]
+pub struct Chain {
+    pub strict: bool,
+    /// the TA carries an authority key identifier (equal to its SKI)
+    pub ta_aki: bool,
+    /// certs[0] is the TA, the last one the leaf, CAs in between
+    pub certs: Vec<CertSpec>,
+    pub leaf: Leaf,
+    /// a pool key not used by any certificate of the chain
+    pub sibling_key: u8,
+}
+
+#[derive(Clone, Copy, Debug, Serialize, Deserialize)]
+pub struct Tamper {
+    pub idx: u16,
+    pub kind: u8,
+    pub a: u64,
+    pub b: u64,
+    pub c: u64,
+}
+
+#[derive(Clone, Debug, Serialize, Deserialize)]
+pub struct TamperCase {
+    pub chain: Chain,
+    pub t: Tamper,
+}
+
+#[derive(Clone, Copy, Debug, PartialEq, Eq)]
+enum Kind {
+    Ta,
+    Ca,
+    Ee,
+    DetachedEe,
+    Router,
+}
+
+impl Chain {
+    fn kind(&self, i: usize) -> Kind {
+        if i == 0 {
+            Kind::Ta
+        } else if i + 1 < self.certs.len() {
+            Kind::Ca
+        } else {
+            match self.leaf {
+                Leaf::Ee => Kind::Ee,
+                Leaf::DetachedEe => Kind::DetachedEe,
+                Leaf::Router => Kind::Router,
+                Leaf::Ca => Kind::Ca,
+            }
+        }
+    }
+}
+
+//------------ reference model --------------------------------------------------------
+
+#[derive(Clone, Debug, Default, PartialEq)]
+struct Validated {
+    v4: Set,
+    v6: Set,
+    asn: Set,
+}
+
+impl Validated {
+    fn get(&self, f: Fam) -> &Set {
+        match f {
+            Fam::V4 => &self.v4,
+            Fam::V6 => &self.v6,
+            Fam::As => &self.asn,
+        }
+    }
+    fn get_mut(&mut self, f: Fam) -> &mut Set {
+        match f {
+            Fam::V4 => &mut self.v4,
+            Fam::V6 => &mut self.v6,
+            Fam::As => &mut self.asn,
+        }
+    }
+}
+
+/// Expected outcome of validating `spec` as `kind` under `issuer` at `eval_ms`.
+fn model_step(
+    issuer: Option<&Validated>,
+    spec: &CertSpec,
+    kind: Kind,
+    eval_ms: i64,
+) -> Result<Validated, &'static str> {
+    if FAMS.iter().all(|&f| *spec.res(f) == Res::Missing) {
+        // "both AS and IP resources extensions are missing": not decodable
+        return Err("no-resources");
+    }
+    if kind == Kind::Router {
+        // RFC 8209 profile as inspected by the library
+        if spec.v4 != Res::Missing || spec.v6 != Res::Missing || !matches!(spec.asn, Res::Blocks(_)) {
+            return Err("router-profile");
+        }
+    }
+    if !spec.in_window(eval_ms) {
+        return Err("time");
+    }
+    let mut out = Validated::default();
+    for f in FAMS {
+        let v = match (spec.res(f), issuer) {
+            (Res::Missing, _) => Set::default(),
+            (Res::Inherit, None) => return Err("ta-inherit"),
+            (Res::Inherit, Some(i)) => i.get(f).clone(),
+            (Res::Blocks(_), None) => spec.res(f).set(),
+            (Res::Blocks(_), Some(i)) => {
+                let b = spec.res(f).set();
+                if spec.trim {
+                    b.intersection(i.get(f))
+                } else if b.is_subset(i.get(f)) {
+                    b
+                } else {
+                    return Err("overclaim");
+                }
+            }
+        };
+        *out.get_mut(f) = v;
+    }
+    Ok(out)
+}
+
+//------------ building certificates --------------------------------------------------
+
+fn time_s(secs: i64) -> Result<Time, Fail> {
+    Utc.timestamp_opt(secs, 0)
+        .single()
+        .map(Time::new)
+        .ok_or_else(|| Fail::new(format!("generator: time {} s out of range", secs)))
+}
+
+fn time_ms(ms: i64) -> Result<Time, Fail> {
+    Utc.timestamp_millis_opt(ms)
+        .single()
+        .map(Time::new)
+        .ok_or_else(|| Fail::new(format!("generator: time {} ms out of range", ms)))
+}
+
+fn rsync(s: &str) -> uri::Rsync {
+    uri::Rsync::from_str(s).expect("static uri")
+}
+
+#[derive(Default)]
+struct Overrides {
+    /// replace the authority key identifier
+    aki: Option<Option<KeyIdentifier>>,
+    /// use this (RSA pool) subject key instead of the spec's
+    subject_key: Option<usize>,
+    /// sign with this pool key instead of the issuer's
+    signer_key: Option<usize>,
+}
+
+fn subject_key(c: &Chain, i: usize, ov: &Overrides) -> rpki::crypto::PublicKey {
+    let signer = PoolSigner::new();
+    match ov.subject_key {
+        Some(k) => signer.info(k),
+        None if c.kind(i) == Kind::Router => keys::ec_key(c.certs[i].key as usize),
+        None => signer.info(c.certs[i].key as usize),
+    }
+}
+
+fn push_ip(spec: &Res, f: Fam) -> Vec<IpBlock> {
+    let Res::Blocks(v) = spec else { return Vec::new() };
+    v.iter()
+        .map(|&(a, b)| {
+            let (lo, hi) = if f == Fam::V4 { (a.0 << 96, (b.0 << 96) | LOW96) } else { (a.0, b.0) };
+            IpBlock::from((Addr::from_bits(lo), Addr::from_bits(hi)))
+        })
+        .collect()
+}
+
+/// Builds certificate `i` of the chain, signs it and returns its DER encoding.
+fn build_der(c: &Chain, i: usize, ov: &Overrides) -> Result<Vec<u8>, Fail> {
+    let signer = PoolSigner::new();
+    let spec = &c.certs[i];
+    let kind = c.kind(i);
+    let issuer_key = if i == 0 { ov.subject_key.unwrap_or(spec.key as usize) } else { c.certs[i - 1].key as usize };
+    let issuer_pub = signer.info(issuer_key);
+    let subject_pub = subject_key(c, i, ov);
+    let overclaim = if spec.trim { Overclaim::Trim } else { Overclaim::Refuse };
+    let usage = if matches!(kind, Kind::Ta | Kind::Ca) { KeyUsage::Ca } else { KeyUsage::Ee };
+    let mut tbs = TbsCert::new(
+        spec.serial.into(),
+        issuer_pub.to_subject_name(),
+        Validity::new(time_s(spec.nb)?, time_s(spec.na)?),
+        None,
+        subject_pub.clone(),
+        usage,
+        overclaim,
+    );
+    let base = "rsync://example.net/repo/";
+    match kind {
+        Kind::Ta | Kind::Ca => {
+            tbs.set_basic_ca(Some(true));
+            tbs.set_ca_repository(Some(rsync(&format!("{}ca{}/", base, i))));
+            tbs.set_rpki_manifest(Some(rsync(&format!("{}ca{}/m.mft", base, i))));
+        }
+        Kind::Ee => tbs.set_signed_object(Some(rsync(&format!("{}ca{}/o.roa", base, i)))),
+        Kind::DetachedEe => {
+            if spec.serial % 2 == 0 {
+                tbs.set_signed_object(Some(rsync(&format!("{}ca{}/o.sig", base, i))));
+            }
+        }
+        Kind::Router => tbs.set_extended_key_usage(Some(ExtendedKeyUsage::create_router())),
+    }
+    if kind == Kind::Ta {
+        if c.ta_aki {
+            tbs.set_authority_key_identifier(Some(subject_pub.key_identifier()));
+        }
+    } else {
+        tbs.set_authority_key_identifier(Some(issuer_pub.key_identifier()));
+        tbs.set_crl_uri(Some(rsync(&format!("{}ca{}/c.crl", base, i - 1))));
+        tbs.set_ca_issuer(Some(rsync(&format!("{}ca{}.cer", base, i - 1))));
+    }
+    if let Some(aki) = ov.aki {
+        tbs.set_authority_key_identifier(aki);
+    }
+    match &spec.v4 {
+        Res::Missing => {}
+        Res::Inherit => tbs.set_v4_resources_inherit(),
+        r => tbs.build_v4_resource_blocks(|b| push_ip(r, Fam::V4).into_iter().for_each(|x| b.push(x))),
+    }
+    match &spec.v6 {
+        Res::Missing => {}
+        Res::Inherit => tbs.set_v6_resources_inherit(),
+        r => tbs.build_v6_resource_blocks(|b| push_ip(r, Fam::V6).into_iter().for_each(|x| b.push(x))),
+    }
+    match &spec.asn {
+        Res::Missing => {}
+        Res::Inherit => tbs.set_as_resources_inherit(),
+        Res::Blocks(v) => tbs.build_as_resource_blocks(|b| {
+            for &(lo, hi) in v {
+                let (lo, hi) = (Asn::from_u32(lo.0 as u32), Asn::from_u32(hi.0 as u32));
+                if lo == hi {
+                    b.push(AsBlock::Id(lo))
+                } else {
+                    b.push((lo, hi))
+                }
+            }
+        }),
+    }
+    let sign_with = ov.signer_key.unwrap_or(issuer_key);
+    let cert = tbs
+        .into_cert(&signer, &signer.key(sign_with))
+        .map_err(|e| Fail::new(format!("signing failed: {}", e)))?;
+    Ok(cert.to_captured().into_bytes().to_vec())
+}
+
+//------------ validating through the library -----------------------------------------
+
+enum Outcome {
+    Rejected(String),
+    /// `None` for router certificates (validation returns `()`).
+    Accepted(Option<Box<ResourceCert>>),
+}
+
+fn validate(der: &[u8], kind: Kind, issuer: Option<&ResourceCert>, strict: bool, now: Time) -> Result<Outcome, Fail> {
+    let cert = match no_panic("Cert::decode", || Cert::decode(der))? {
+        Ok(c) => c,
+        Err(e) => return Ok(Outcome::Rejected(format!("decode: {}", e))),
+    };
+    let need_issuer = || Fail::new("harness: issuer missing");
+    let res = no_panic("validate", || -> Result<Result<Option<ResourceCert>, String>, Fail> {
+        Ok(match kind {
+            Kind::Ta => cert
+                .validate_ta_at(TalInfo::from_name("c01".into()).into_arc(), strict, now)
+                .map(Some)
+                .map_err(|e| e.to_string()),
+            Kind::Ca => cert.validate_ca_at(issuer.ok_or_else(need_issuer)?, strict, now).map(Some).map_err(|e| e.to_string()),
+            Kind::Ee => cert.validate_ee_at(issuer.ok_or_else(need_issuer)?, strict, now).map(Some).map_err(|e| e.to_string()),
+            Kind::DetachedEe => cert
+                .validate_detached_ee_at(issuer.ok_or_else(need_issuer)?, strict, now)
+                .map(Some)
+                .map_err(|e| e.to_string()),
+            Kind::Router => cert
+                .validate_router_at(issuer.ok_or_else(need_issuer)?, strict, now)
+                .map(|()| None)
+                .map_err(|e| e.to_string()),
+        })
+    })??;
+    Ok(match res {
+        Ok(rc) => Outcome::Accepted(rc.map(Box::new)),
+        Err(e) => Outcome::Rejected(e),
+    })
+}
+
+/// The validated resources as reported by the library, mapped into the model's
+/// integer spaces (raw lists, in the library's order).
+fn lib_lists(rc: &ResourceCert, f: Fam) -> Result<Vec<Iv>, Fail> {
+    match f {
+        Fam::As => Ok(rc
+            .as_resources()
+            .iter()
+            .map(|b| (b.min().into_u32() as u128, b.max().into_u32() as u128))
+            .collect()),
+        Fam::V6 => Ok(rc.v6_resources().iter().map(|b| (b.min().to_bits(), b.max().to_bits())).collect()),
+        Fam::V4 => {
+            let mut out = Vec::new();
+            for b in rc.v4_resources().iter() {
+                let (lo, hi) = (b.min().to_bits(), b.max().to_bits());
+                ensure_sig!(
+                    lo & LOW96 == 0 && hi & LOW96 == LOW96,
+                    "c01:resources-differ",
+                    "validated IPv4 block {:x}-{:x} is not made of whole IPv4 addresses",
+                    lo,
+                    hi
+                );
+                out.push((lo >> 96, hi >> 96));
+            }
+            Ok(out)
+        }
+    }
+}
+
+fn check_resources(
+    what: &str,
+    rc: &ResourceCert,
+    expected: &Validated,
+    issuer: Option<&ResourceCert>,
+) -> CheckResult {
+    for f in FAMS {
+        let raw = lib_lists(rc, f)?;
+        ensure_sig!(
+            canonical(&raw),
+            "c01:noncanonical",
+            "{}: validated {} resources are not an ascending list of disjoint, non-adjacent blocks: {:x?}",
+            what,
+            f.name(),
+            raw
+        );
+        let got = Set::from_ranges(&raw);
+        ensure_sig!(
+            got == *expected.get(f),
+            "c01:resources-differ",
+            "{}: validated {} resources {:x?} differ from the model {:x?}",
+            what,
+            f.name(),
+            got.0,
+            expected.get(f).0
+        );
+        if let Some(i) = issuer {
+            let iss = Set::from_ranges(&lib_lists(i, f)?);
+            ensure_sig!(
+                got.is_subset(&iss),
+                "c01:resources-grow",
+                "{}: validated {} resources {:x?} are not a subset of the issuer's {:x?}",
+                what,
+                f.name(),
+                got.0,
+                iss.0
+            );
+        }
+    }
+    Ok(())
+}
+
+/// Validates certificate `i` (given as DER) and compares with the model.
+/// Returns the validated certificate and model state on (expected and actual)
+/// acceptance, `None` on (expected and actual) rejection.
+#[allow(clippy::too_many_arguments)]
+fn step(
+    c: &Chain,
+    i: usize,
+    der: &[u8],
+    spec: &CertSpec,
+    eval_ms: i64,
+    issuer: Option<(&ResourceCert, &Validated)>,
+    what: &str,
+) -> Result<Option<(Option<Box<ResourceCert>>, Validated)>, Fail> {
+    let kind = c.kind(i);
+    let expected = model_step(issuer.map(|x| x.1), spec, kind, eval_ms);
+    let got = validate(der, kind, issuer.map(|x| x.0), c.strict, time_ms(eval_ms)?)?;
+    match (expected, got) {
+        (Ok(m), Outcome::Accepted(rc)) => {
+            if let Some(rc) = &rc {
+                check_resources(what, rc, &m, issuer.map(|x| x.0))?;
+            }
+            Ok(Some((rc, m)))
+        }
+        (Err(_), Outcome::Rejected(_)) => Ok(None),
+        (Ok(_), Outcome::Rejected(e)) => Err(Fail::sig(
+            "c01:rejects-valid",
+            format!("{} (cert {} as {:?}): the model accepts, the library rejects: {}", what, i, kind, e),
+        )),
+        (Err(why), Outcome::Accepted(_)) => Err(Fail::sig(
+            format!("c01:accepts:{}", why),
+            format!("{} (cert {} as {:?}): accepted although the model rejects ({})", what, i, kind, why),
+        )),
+    }
+}
+
+//------------ sub-check: chains ------------------------------------------------------
+
+fn relation(b: &Set, issuer: &Set) -> &'static str {
+    if b == issuer {
+        "rel-equal"
+    } else if b.is_subset(issuer) {
+        "rel-subset"
+    } else if issuer.is_subset(b) {
+        "rel-superset"
+    } else if b.intersection(issuer).is_empty() {
+        "rel-disjoint"
+    } else {
+        "rel-partial"
+    }
+}
+
+/// Class labels, at most once per case.
+#[derive(Default)]
+struct Labels(std::collections::BTreeSet<&'static str>);
+
+impl Labels {
+    fn label(&mut self, l: &'static str) {
+        self.0.insert(l);
+    }
+    fn label_if(&mut self, c: bool, l: &'static str) {
+        if c {
+            self.0.insert(l);
+        }
+    }
+}
+
+fn run_chain(c: &Chain, real_obs: &mut Obs) -> CheckResult {
+    let mut labels = Labels::default();
+    let mut nontrivial = false;
+    let res = run_chain_inner(c, &mut labels, &mut nontrivial);
+    for l in labels.0 {
+        real_obs.label(l);
+    }
+    real_obs.nontrivial_if(nontrivial);
+    res
+}
+
+fn run_chain_inner(c: &Chain, obs: &mut Labels, nontrivial_out: &mut bool) -> CheckResult {
+    ensure!(c.certs.len() >= 2 && c.certs.len() <= 4, "malformed case: {} certificates", c.certs.len());
+    let n = c.certs.len();
+    obs.label(match n {
+        2 => "depth-0",
+        3 => "depth-1",
+        _ => "depth-2",
+    });
+    obs.label(match c.leaf {
+        Leaf::Ee => "leaf-ee",
+        Leaf::DetachedEe => "leaf-detached-ee",
+        Leaf::Router => "leaf-router",
+        Leaf::Ca => "leaf-ca",
+    });
+    obs.label(if c.strict { "strict" } else { "relaxed" });
+    let mut nontrivial = n >= 3;
+    let mut state: Option<(Option<Box<ResourceCert>>, Validated)> = None;
+    let mut accepted = true;
+    for i in 0..n {
+        let spec = &c.certs[i];
+        // class labels (by what the case actually is, not by what the generator intended)
+        if i > 0 {
+            obs.label(if spec.trim { "policy-trim" } else { "policy-refuse" });
+            let iv = &state.as_ref().unwrap().1;
+            for f in FAMS {
+                match spec.res(f) {
+                    Res::Missing => obs.label("fam-missing"),
+                    Res::Inherit => {
+                        obs.label("fam-inherit");
+                        nontrivial = true;
+                    }
+                    Res::Blocks(_) => {
+                        obs.label("fam-blocks");
+                        let b = spec.res(f).set();
+                        let rel = relation(&b, iv.get(f));
+                        obs.label(rel);
+                        if !b.is_subset(iv.get(f)) {
+                            obs.label(if spec.trim { "overclaim-trimmed" } else { "overclaim-refused" });
+                            nontrivial = true;
+                        }
+                        obs.label_if(b.0.first().map(|x| x.0) == Some(0), "touch-0");
+                        obs.label_if(b.0.last().map(|x| x.1) == Some(f.max()), "touch-max");
+                    }
+                }
+            }
+            nontrivial |= spec.trim;
+        }
+        let ms = spec.eval_ms as i128;
+        let (lo, hi) = (spec.nb as i128 * 1000, spec.na as i128 * 1000);
+        obs.label(if spec.in_window(spec.eval_ms) { "in-window" } else { "out-of-window" });
+        obs.label_if(ms == lo || ms == hi, "time-on-edge");
+        obs.label_if((ms - lo).abs() == 1 || (ms - hi).abs() == 1, "time-1ms-off-edge");
+        let der = build_der(c, i, &Overrides::default())?;
+        let issuer = match &state {
+            Some((Some(rc), m)) => Some((&**rc, m)),
+            Some((None, _)) => return Err(Fail::new("malformed case: router certificate used as issuer")),
+            None => None,
+        };
+        match step(c, i, &der, spec, spec.eval_ms, issuer, "chain")? {
+            Some(s) => state = Some(s),
+            None => {
+                accepted = false;
+                obs.label(match model_step(issuer.map(|x| x.1), spec, c.kind(i), spec.eval_ms) {
+                    Err("time") => "reject-time",
+                    Err("overclaim") => "reject-overclaim",
+                    Err("ta-inherit") => "reject-ta-inherit",
+                    _ => "reject-other",
+                });
+                break;
+            }
+        }
+    }
+    obs.label(if accepted { "accepted" } else { "rejected" });
+    *nontrivial_out = nontrivial;
+    Ok(())
+}
+
+//------------ sub-check: tamper ------------------------------------------------------
+
+/// (tag, content start, content end) of the TLV starting at `pos`.
+fn tlv(buf: &[u8], pos: usize) -> Option<(u8, usize, usize)> {
+    let tag = *buf.get(pos)?;
+    let l0 = *buf.get(pos + 1)? as usize;
+    let (len, hdr) = if l0 < 0x80 {
+        (l0, 2)
+    } else {
+        let n = l0 & 0x7f;
+        if n == 0 || n > 4 {
+            return None;
+        }
+        let mut l = 0usize;
+        for k in 0..n {
+            l = (l << 8) | *buf.get(pos + 2 + k)? as usize;
+        }
+        (l, 2 + n)
+    };
+    let start = pos + hdr;
+    let end = start.checked_add(len)?;
+    if end > buf.len() {
+        return None;
+    }
+    Some((tag, start, end))
+}
+
+struct CertLayout {
+    /// the TBSCertificate TLV including its header (= the signed bytes)
+    tbs: (usize, usize),
+    /// the signature value (BIT STRING content without the unused-bits octet)
+    sig: (usize, usize),
+    /// the 20 octets of the subject key identifier
+    ski: (usize, usize),
+}
+
+fn layout(der: &[u8]) -> Option<CertLayout> {
+    let (t, s, _) = tlv(der, 0)?;
+    if t != 0x30 {
+        return None;
+    }
+    let (t, tbs_s, tbs_e) = tlv(der, s)?;
+    if t != 0x30 {
+        return None;
+    }
+    let (_, _, alg_e) = tlv(der, tbs_e)?;
+    let (t, sig_s, sig_e) = tlv(der, alg_e)?;
+    if t != 0x03 || sig_e != der.len() {
+        return None;
+    }
+    // walk the TBS for the [3] extensions
+    let mut pos = tbs_s;
+    let mut ski = None;
+    while pos < tbs_e {
+        let (t, cs, ce) = tlv(der, pos)?;
+        if t == 0xA3 {
+            let (_, mut p, e) = tlv(der, cs)?;
+            while p < e {
+                let (_, xs, xe) = tlv(der, p)?;
+                let (ot, os, oe) = tlv(der, xs)?;
+                if ot == 0x06 && der[os..oe] == [0x55, 0x1D, 0x0E] {
+                    let mut q = oe;
+                    let (mut vt, mut vs, mut ve) = tlv(der, q)?;
+                    if vt == 0x01 {
+                        q = ve;
+                        (vt, vs, ve) = tlv(der, q)?;
+                    }
+                    if vt != 0x04 {
+                        return None;
+                    }
+                    let (it, is, ie) = tlv(der, vs)?;
+                    if it != 0x04 || ie != ve || ie - is != 20 {
+                        return None;
+                    }
+                    ski = Some((is, ie));
+                }
+                p = xe;
+            }
+        }
+        pos = ce;
+    }
+    Some(CertLayout { tbs: (s, tbs_e), sig: (sig_s + 1, sig_e), ski: ski? })
+}
+
+const TAMPER_KINDS: [&str; 8] = [
+    "tamper-tbs-bit",
+    "tamper-sig-bit",
+    "tamper-sibling-issuer",
+    "tamper-wrong-signer",
+    "tamper-time",
+    "tamper-aki",
+    "tamper-ski",
+    "tamper-block",
+];
+
+fn run_tamper(tc: &TamperCase, obs: &mut Obs) -> CheckResult {
+    let c = &tc.chain;
+    let t = tc.t;
+    ensure!(c.certs.len() >= 2 && c.certs.len() <= 4, "malformed case: {} certificates", c.certs.len());
+    let n = c.certs.len();
+    let wanted = [0usize, 1, 2, 3, 4, 5, 6, 7, 7][t.kind as usize % 9];
+    // sibling issuer and block tamper need an issuer: aim below the TA
+    let idx = if wanted == 2 || wanted == 7 { 1 + pick_idx(t.idx, n - 1) } else { pick_idx(t.idx, n) };
+    obs.nontrivial();
+    obs.label(match idx {
+        0 => "tamper-at-ta",
+        i if i + 1 == n => "tamper-at-leaf",
+        _ => "tamper-at-ca",
+    });
+    // 1. the untampered chain down to idx must be accepted
+    let mut states: Vec<(Option<Box<ResourceCert>>, Validated)> = Vec::new();
+    let mut ders: Vec<Vec<u8>> = Vec::new();
+    for i in 0..=idx {
+        let der = build_der(c, i, &Overrides::default())?;
+        let issuer = match states.last() {
+            Some((Some(rc), m)) => Some((&**rc, m)),
+            Some((None, _)) => return Err(Fail::new("malformed case: router certificate used as issuer")),
+            None => None,
+        };
+        let spec = &c.certs[i];
+        ensure!(
+            model_step(issuer.map(|x| x.1), spec, c.kind(i), spec.eval_ms).is_ok(),
+            "malformed case: base chain is not accepted by the model at certificate {}",
+            i
+        );
+        let s = step(c, i, &der, spec, spec.eval_ms, issuer, "tamper base chain")?
+            .ok_or_else(|| Fail::new("unreachable: model accepted"))?;
+        states.push(s);
+        ders.push(der);
+    }
+    let spec = &c.certs[idx];
+    let kind = c.kind(idx);
+    let issuer_state = if idx > 0 { Some(&states[idx - 1]) } else { None };
+    let issuer = issuer_state.map(|(rc, m)| (&**rc.as_ref().expect("issuer is a CA"), m));
+    let issuer_key = if idx == 0 { spec.key as usize } else { c.certs[idx - 1].key as usize };
+    let sibling = c.sibling_key as usize % POOL_SIZE;
+    ensure!(
+        c.certs.iter().enumerate().all(|(i, s)| c.kind(i) == Kind::Router || s.key as usize % POOL_SIZE != sibling),
+        "malformed case: sibling key is used in the chain"
+    );
+
+    // 2. pick an applicable tamper kind
+    let mut k = wanted;
+    // block tamper needs a claimed block list and room outside the issuer
+    let block_choice = || -> Option<(Fam, Set)> {
+        let (_, im) = issuer?;
+        let cands: Vec<(Fam, Set)> = FAMS
+            .iter()
+            .filter_map(|&f| {
+                let gaps = im.get(f).complement(f.max());
+                (matches!(spec.res(f), Res::Blocks(_)) && !gaps.is_empty()).then_some((f, gaps))
+            })
+            .collect();
+        if cands.is_empty() {
+            None
+        } else {
+            Some(cands[(t.a % cands.len() as u64) as usize].clone())
+        }
+    };
+    if k == 7 && block_choice().is_none() {
+        k = 4;
+    }
+    if k == 2 && idx == 0 {
+        k = 3;
+    }
+    obs.label(TAMPER_KINDS[k]);
+
+    let expect_reject = |der: &[u8], issuer: Option<&ResourceCert>, eval_ms: i64, what: &str| -> CheckResult {
+        match validate(der, kind, issuer, c.strict, time_ms(eval_ms)?)? {
+            Outcome::Rejected(_) => Ok(()),
+            Outcome::Accepted(_) => Err(Fail::sig(
+                format!("c01:accepts:{}", TAMPER_KINDS[k]),
+                format!("certificate {} ({:?}) still accepted after tamper: {}", idx, kind, what),
+            )),
+        }
+    };
+    let irc = issuer.map(|x| x.0);
+    match k {
+        0 => {
+            let lay = layout(&ders[idx]).ok_or_else(|| Fail::new("harness: cannot locate TBS in the certificate"))?;
+            let off = lay.tbs.0 + (t.a % (lay.tbs.1 - lay.tbs.0) as u64) as usize;
+            let mut der = ders[idx].clone();
+            der[off] ^= 1 << (t.b % 8);
+            expect_reject(&der, irc, spec.eval_ms, &format!("bit {} of TBS octet at offset {} flipped", t.b % 8, off))
+        }
+        1 => {
+            let lay = layout(&ders[idx]).ok_or_else(|| Fail::new("harness: cannot locate the signature"))?;
+            let off = lay.sig.0 + (t.a % (lay.sig.1 - lay.sig.0) as u64) as usize;
+            let mut der = ders[idx].clone();
+            der[off] ^= 1 << (t.b % 8);
+            expect_reject(&der, irc, spec.eval_ms, &format!("bit {} of signature octet at offset {} flipped", t.b % 8, off))
+        }
+        2 => {
+            // the same issuer certificate issued for another key
+            let sib_der = build_der(c, idx - 1, &Overrides { subject_key: Some(sibling), ..Default::default() })?;
+            let grand = if idx >= 2 {
+                let (rc, m) = &states[idx - 2];
+                Some((&**rc.as_ref().expect("CA"), m))
+            } else {
+                None
+            };
+            let ispec = &c.certs[idx - 1];
+            let sib = step(c, idx - 1, &sib_der, ispec, ispec.eval_ms, grand, "sibling issuer")?
+                .ok_or_else(|| Fail::new("unreachable: sibling accepted by the model"))?;
+            let sib_rc = sib.0.ok_or_else(|| Fail::new("harness: sibling is not a CA"))?;
+            expect_reject(&ders[idx], Some(&sib_rc), spec.eval_ms, "validated under a sibling issuer with another key")
+        }
+        3 => {
+            let der = build_der(c, idx, &Overrides { signer_key: Some(sibling), ..Default::default() })?;
+            expect_reject(&der, irc, spec.eval_ms, "signed with a key that is not the issuer's")
+        }
+        4 => {
+            let delta: i64 = match t.b % 4 {
+                0 => 1,
+                1 => 1000,
+                2 => 86_400_000,
+                _ => 1 + (t.c % 3_000_000_000) as i64,
+            };
+            let eval = if t.a % 2 == 0 { spec.nb * 1000 - delta } else { spec.na * 1000 + delta };
+            expect_reject(&ders[idx], irc, eval, &format!("evaluation time moved {} ms outside the window", delta))
+        }
+        5 => {
+            let own = if idx == 0 { subject_key(c, 0, &Overrides::default()).key_identifier() } else { PoolSigner::new().info(issuer_key).key_identifier() };
+            let mut bytes = [0u8; 20];
+            bytes[..8].copy_from_slice(&t.a.to_le_bytes());
+            bytes[8..16].copy_from_slice(&t.b.to_le_bytes());
+            bytes[16..].copy_from_slice(&t.c.to_le_bytes()[..4]);
+            let mut other = KeyIdentifier::from(bytes);
+            if t.c % 3 == 0 {
+                other = PoolSigner::new().info(sibling).key_identifier();
+            } else if t.c % 3 == 1 {
+                // differs from the right one in a single bit
+                let mut b: [u8; 20] = own.into();
+                b[(t.a % 20) as usize] ^= 1 << (t.b % 8);
+                other = KeyIdentifier::from(b);
+            }
+            if other == own {
+                let mut b: [u8; 20] = own.into();
+                b[0] ^= 1;
+                other = KeyIdentifier::from(b);
+            }
+            let aki = if idx > 0 && t.c % 7 == 6 { None } else { Some(other) };
+            let der = build_der(c, idx, &Overrides { aki: Some(aki), ..Default::default() })?;
+            expect_reject(&der, irc, spec.eval_ms, &format!("authority key identifier replaced by {:?}", aki))
+        }
+        6 => {
+            let mut der = ders[idx].clone();
+            let lay = layout(&der).ok_or_else(|| Fail::new("harness: cannot locate the SKI"))?;
+            let pos = lay.ski.0 + (t.a % 20) as usize;
+            if t.c % 2 == 0 {
+                der[pos] ^= 1 << (t.b % 8);
+            } else {
+                let mut bytes = [0u8; 20];
+                bytes[..8].copy_from_slice(&t.a.to_le_bytes());
+                bytes[8..16].copy_from_slice(&t.b.to_le_bytes());
+                if bytes[..] == der[lay.ski.0..lay.ski.1] {
+                    bytes[0] ^= 1;
+                }
+                der[lay.ski.0..lay.ski.1].copy_from_slice(&bytes);
+            }
+            // re-sign so that only the SKI is wrong
+            let sig = keys::raw_sign(issuer_key, &der[lay.tbs.0..lay.tbs.1]);
+            ensure!(sig.len() == lay.sig.1 - lay.sig.0, "harness: signature length changed");
+            der[lay.sig.0..lay.sig.1].copy_from_slice(&sig);
+            // the patched certificate must still carry a good signature (checked without the library)
+            ensure!(
+                keys::raw_verify(issuer_key, &der[lay.tbs.0..lay.tbs.1], &der[lay.sig.0..lay.sig.1]),
+                "harness: re-signing failed"
+            );
+            expect_reject(&der, irc, spec.eval_ms, "subject key identifier replaced in the TBS, re-signed by the issuer")
+        }
+        _ => {
+            let (f, gaps) = block_choice().expect("checked above");
+            let mut list = spec.res(f).set().0;
+            let j = pick_idx((t.b & 0xFFFF) as u16, list.len());
+            let (g_lo, g_hi) = gaps.0[pick_idx(((t.b >> 16) & 0xFFFF) as u16, gaps.0.len())];
+            let span = g_hi - g_lo;
+            let new = match t.c % 4 {
+                0 => (g_lo, g_hi),
+                1 => (g_lo, g_lo),
+                2 => (g_hi, g_hi),
+                _ => {
+                    let x = upto(t.c >> 2, span);
+                    let y = upto(t.a, span - x);
+                    (g_lo + x, g_lo + x + y)
+                }
+            };
+            list[j] = new;
+            let mut c2 = c.clone();
+            *c2.certs[idx].res_mut(f) = Res::from_set(&Set::from_ranges(&list));
+            let spec2 = c2.certs[idx].clone();
+            let der = build_der(&c2, idx, &Overrides::default())?;
+            let what = format!("{} block {} replaced by {:x?} outside the issuer", f.name(), j, new);
+            if spec2.trim {
+                obs.label("tamper-block-trim");
+                // accepted with the intersection
+                step(&c2, idx, &der, &spec2, spec2.eval_ms, issuer, &what)?
+                    .ok_or_else(|| Fail::new("unreachable: trim accepted by the model"))?;
+                Ok(())
+            } else {
+                obs.label("tamper-block-refuse");
+                expect_reject(&der, irc, spec.eval_ms, &what)
+            }
+        }
+    }
+}
+
+//------------ strategies -------------------------------------------------------------
+
+#[derive(Clone, Debug)]
+struct FamR {
+    class: u16,
+    d: [u128; 4],
+    r: [u64; 4],
+}
+
+#[derive(Clone, Debug)]
+struct CertR {
+    trim: bool,
+    fam: [FamR; 3],
+    base_c: u16,
+    base_r: i64,
+    len_c: u16,
+    len_r: u32,
+    eval_c: u16,
+    eval_r: u32,
+    serial: u64,
+}
+
+#[derive(Clone, Debug)]
+struct ChainR {
+    strict: bool,
+    ta_aki: bool,
+    n_ca: u16,
+    leaf: u16,
+    key_base: u8,
+    certs: [CertR; 4],
+}
+
+fn fam_r(bits32: bool) -> BoxedStrategy<FamR> {
+    let d = if bits32 { dense_u32().prop_map(|x| x as u128).boxed() } else { dense_u128() };
+    (any::<u16>(), prop::array::uniform4(d), prop::array::uniform4(any::<u64>()))
+        .prop_map(|(class, d, r)| FamR { class, d, r })
+        .boxed()
+}
+
+fn cert_r() -> BoxedStrategy<CertR> {
+    (
+        any::<bool>(),
+        (fam_r(true), fam_r(false), fam_r(true)),
+        any::<u16>(),
+        -2_000_000_000i64..5_000_000_000i64,
+        any::<u16>(),
+        any::<u32>(),
+        any::<u16>(),
+        any::<u32>(),
+        prop_oneof![Just(0u64), Just(1u64), any::<u64>()],
+    )
+        .prop_map(|(trim, (a, b, c), base_c, base_r, len_c, len_r, eval_c, eval_r, serial)| CertR {
+            trim,
+            fam: [a, b, c],
+            base_c,
+            base_r,
+            len_c,
+            len_r,
+            eval_c,
+            eval_r,
+            serial,
+        })
+        .boxed()
+}
+
+fn chain_r() -> BoxedStrategy<ChainR> {
+    (any::<bool>(), any::<bool>(), any::<u16>(), any::<u16>(), 0u8..8, prop::array::uniform4(cert_r()))
+        .prop_map(|(strict, ta_aki, n_ca, leaf, key_base, certs)| ChainR { strict, ta_aki, n_ca, leaf, key_base, certs })
+        .boxed()
+}
+
+/// Maps a raw u16 through a weight table (monotone, so shrinking moves
+/// towards the first entries).
+fn weighted(raw: u16, weights: &[u32]) -> usize {
+    let total: u32 = weights.iter().sum();
+    let x = (raw as u64 * total as u64 >> 16) as u32;
+    let mut acc = 0;
+    for (i, w) in weights.iter().enumerate() {
+        acc += w;
+        if x < acc {
+            return i;
+        }
+    }
+    weights.len() - 1
+}
+
+/// A block list from the recipe's dense values, independent of the issuer.
+fn arbitrary_blocks(fr: &FamR, max: u128) -> Vec<Iv> {
+    let d: Vec<u128> = fr.d.iter().map(|&x| x.min(max)).collect();
+    let n = 1 + (fr.r[0] % 2) as usize;
+    (0..n).map(|k| (d[2 * k].min(d[2 * k + 1]), d[2 * k].max(d[2 * k + 1]))).collect()
+}
+
+/// A value in `[0, span]`.
+fn upto(raw: u64, span: u128) -> u128 {
+    let wide = ((raw as u128) << 64) | (raw.rotate_left(29) as u128);
+    if span == u128::MAX {
+        wide
+    } else if span < u64::MAX as u128 {
+        raw as u128 % (span + 1)
+    } else {
+        wide % (span + 1)
+    }
+}
+
+/// Derives a claimed block list of the given class relative to the issuer's
+/// validated set `iss`.
+fn derive(class: usize, fr: &FamR, iss: &Set, max: u128) -> Vec<Iv> {
+    let r = &fr.r;
+    let pick = |raw: u64, s: &Set| s.0[pick_idx((raw & 0xFFFF) as u16, s.0.len())];
+    // a small or arbitrary offset not larger than `room`
+    let off = |raw: u64, room: u128| -> u128 {
+        if room == 0 {
+            return 0;
+        }
+        match raw % 4 {
+            0 => 1,
+            1 => 2.min(room),
+            2 => 1 + (raw as u128 >> 2) % room.min(1 << 20),
+            _ => 1 + upto(raw, room - 1),
+        }
+        .min(room)
+    };
+    let gaps = iss.complement(max);
+    match class {
+        // equal
+        2 => iss.0.clone(),
+        // strict subset
+        3 if !iss.is_empty() => {
+            let (a, b) = pick(r[0], iss);
+            let others: Vec<Iv> =
+                iss.0.iter().copied().enumerate().filter(|(k, iv)| *iv != (a, b) && (r[3] >> (k % 60)) & 1 == 1).map(|x| x.1).collect();
+            let mut v = match r[1] % 6 {
+                0 if b > a => vec![(a, b - off(r[2], b - a))],
+                1 if b > a => vec![(a + off(r[2], b - a), b)],
+                2 if b - a >= 2 => {
+                    let x = off(r[2], b - a - 1);
+                    let y = off(r[2] >> 7, b - a - x);
+                    vec![(a + x, b - y)]
+                }
+                3 => vec![(a, a)],
+                4 => vec![(b, b)],
+                _ => vec![],
+            };
+            v.extend(others);
+            v
+        }
+        // partially outside
+        4 if !iss.is_empty() => {
+            let (a, b) = pick(r[0], iss);
+            let start = a + upto(r[2], b - a);
+            match r[1] % 3 {
+                0 if b < max => vec![(start, b + off(r[3], max - b))],
+                1 if a > 0 => {
+                    let end = start;
+                    vec![(a - off(r[3], a), end)]
+                }
+                _ => {
+                    // bridge to the next block of the issuer (or extend to the right end)
+                    let k = iss.0.iter().position(|iv| *iv == (a, b)).unwrap_or(0);
+                    match iss.0.get(k + 1) {
+                        Some(&(c, _)) => vec![(start, c)],
+                        None if b < max => vec![(start, max)],
+                        None if a > 0 => vec![(0, start)],
+                        None => iss.0.clone(),
+                    }
+                }
+            }
+        }
+        // disjoint
+        5 if !gaps.is_empty() => {
+            let (g, h) = pick(r[0], &gaps);
+            match r[1] % 4 {
+                0 => vec![(g, h)],
+                1 => vec![(g, g + off(r[2], h - g).saturating_sub(1).min(h - g))],
+                2 => vec![(h - off(r[2], h - g).saturating_sub(1).min(h - g), h)],
+                _ => {
+                    let x = upto(r[2], h - g);
+                    vec![(g + x, g + x + upto(r[3], h - g - x))]
+                }
+            }
+        }
+        // superset
+        6 if !gaps.is_empty() => {
+            let mut v = iss.0.clone();
+            match r[1] % 3 {
+                0 => v = vec![(0, max)],
+                1 => {
+                    let (g, h) = pick(r[0], &gaps);
+                    let x = upto(r[2], h - g);
+                    v.push((g + x, g + x + off(r[3], h - g - x)));
+                }
+                _ => {
+                    // one item past the end of a block / before its start
+                    let (g, h) = pick(r[0], &gaps);
+                    v.push(if r[2] % 2 == 0 { (g, g) } else { (h, h) });
+                }
+            }
+            v
+        }
+        // touching 0 / max
+        7 => match r[1] % 6 {
+            0 => vec![(0, fr.d[0].min(max))],
+            1 => vec![(fr.d[0].min(max), max)],
+            2 => vec![(0, max)],
+            3 => vec![(0, 0)],
+            4 => vec![(max, max)],
+            _ => vec![(0, 0), (max, max)],
+        },
+        // arbitrary boundary-dense blocks
+        8 => arbitrary_blocks(fr, max),
+        // classes that could not be realised fall back to "equal"
+        _ => iss.0.clone(),
+    }
+}
+
+const BASES: [i64; 12] = [
+    0,
+    946_684_800,    // 2000-01-01
+    1_767_225_600,  // 2026-01-01
+    2_524_607_999,  // 2049-12-31T23:59:59
+    2_524_608_000,  // 2050-01-01
+    -631_152_000,   // 1950-01-01
+    -631_152_001,   // 1949-12-31T23:59:59
+    4_102_444_800,  // 2100-01-01
+    951_782_400,    // 2000-02-29
+    1_000_000_000,
+    -1,
+    2_147_483_647,
+];
+
+fn make_chain(r: &ChainR, accept_only: bool) -> Chain {
+    let n_ca = weighted(r.n_ca, &[30, 40, 30]);
+    let leaf = [Leaf::Ee, Leaf::DetachedEe, Leaf::Router, Leaf::Ca][weighted(r.leaf, &[35, 15, 25, 25])];
+    let n = n_ca + 2;
+    let mut certs: Vec<CertSpec> = Vec::new();
+    let mut issuer = Validated::default();
+    for i in 0..n {
+        let cr = &r.certs[i];
+        let is_router = i + 1 == n && leaf == Leaf::Router;
+        let mut spec = CertSpec {
+            key: (r.key_base as usize + i) as u8 % POOL_SIZE as u8,
+            trim: cr.trim,
+            v4: Res::Missing,
+            v6: Res::Missing,
+            asn: Res::Missing,
+            nb: 0,
+            na: 0,
+            eval_ms: 0,
+            serial: cr.serial,
+        };
+        // resources
+        for (k, f) in FAMS.into_iter().enumerate() {
+            let fr = &cr.fam[k];
+            let res = if i == 0 {
+                // trust anchor: blocks, everything, missing, (rarely) inherit
+                match weighted(fr.class, &[45, 25, 15, 13, 2]) {
+                    0 => Res::from_set(&Set::from_ranges(&arbitrary_blocks(fr, f.max()))),
+                    1 => Res::Blocks(vec![(U128(0), U128(f.max()))]),
+                    2 => Res::from_set(&Set::from_ranges(&derive(7, fr, &Set::default(), f.max()))),
+                    3 => Res::Missing,
+                    _ if accept_only => Res::Missing,
+                    _ => Res::Inherit,
+                }
+            } else {
+                // 0 missing, 1 inherit, 2 equal, 3 subset, 4 partial, 5 disjoint, 6 superset, 7 touch, 8 arbitrary
+                let class = weighted(fr.class, &[10, 20, 14, 32, 5, 3, 4, 7, 5]);
+                match class {
+                    0 => Res::Missing,
+                    1 => Res::Inherit,
+                    _ => Res::from_set(&Set::from_ranges(&derive(class, fr, issuer.get(f), f.max()))),
+                }
+            };
+            *spec.res_mut(f) = res;
+        }
+        if is_router {
+            spec.v4 = Res::Missing;
+            spec.v6 = Res::Missing;
+            if !matches!(spec.asn, Res::Blocks(_)) {
+                spec.asn = if issuer.asn.is_empty() {
+                    Res::Blocks(vec![(U128(64496), U128(64496))])
+                } else {
+                    Res::from_set(&issuer.asn)
+                };
+            }
+        }
+        if accept_only && i > 0 && !spec.trim {
+            for f in FAMS {
+                if let Res::Blocks(_) = spec.res(f) {
+                    let b = spec.res(f).set().intersection(issuer.get(f));
+                    *spec.res_mut(f) = if b.is_empty() && !(is_router && f == Fam::As) { Res::Inherit } else { Res::from_set(&b) };
+                }
+            }
+            if is_router {
+                spec.v4 = Res::Missing;
+                spec.v6 = Res::Missing;
+                if spec.asn == Res::Missing {
+                    // nothing can be claimed without overclaiming: use the trimming policy
+                    spec.trim = true;
+                    spec.asn = Res::Blocks(vec![(U128(64496), U128(64496))]);
+                }
+            }
+        }
+        if FAMS.iter().all(|&f| *spec.res(f) == Res::Missing) && (accept_only || cr.serial % 8 != 0) {
+            // a certificate without any resource extension cannot be decoded; keep this rare
+            if i == 0 {
+                spec.asn = Res::Blocks(vec![(U128(0), U128(u32::MAX as u128))]);
+            } else {
+                spec.asn = Res::Inherit;
+            }
+        }
+        // validity window and evaluation time
+        let nb = match weighted(cr.base_c, &[60, 40]) {
+            0 => BASES[pick_idx(cr.base_c.wrapping_mul(31), BASES.len())],
+            _ => cr.base_r,
+        };
+        let len: i64 = match weighted(cr.len_c, &[4, 6, 10, 30, 30, 20]) {
+            0 => 0,
+            1 => 1,
+            2 => 60,
+            3 => 86_400,
+            4 => 315_360_000,
+            _ => cr.len_r as i64,
+        };
+        spec.nb = nb;
+        spec.na = nb + len;
+        let (lo, hi) = (spec.nb * 1000, spec.na * 1000);
+        let weights: &[u32] = if accept_only { &[50, 10, 10, 5, 5, 2, 2, 0, 0, 0, 0, 0, 0] } else { &[50, 10, 10, 5, 5, 2, 2, 2, 2, 1, 1, 1, 1] };
+        spec.eval_ms = match weighted(cr.eval_c, weights) {
+            0 => lo + ((cr.eval_r as i64) % (hi - lo + 1).max(1)),
+            1 => lo,
+            2 => hi,
+            3 => lo + 1,
+            4 => hi - 1,
+            5 => lo + 1000,
+            6 => hi - 1000,
+            7 => lo - 1,
+            8 => hi + 1,
+            9 => lo - 1000,
+            10 => hi + 1000,
+            11 => lo - 1 - (cr.eval_r as i64) * 1000,
+            _ => hi + 1 + (cr.eval_r as i64) * 1000,
+        };
+        if accept_only && !spec.in_window(spec.eval_ms) {
+            spec.eval_ms = lo;
+        }
+        // model state for the next certificate (continue with what would be valid)
+        let kind_is_ta = i == 0;
+        let mut next = Validated::default();
+        for f in FAMS {
+            *next.get_mut(f) = match spec.res(f) {
+                Res::Missing => Set::default(),
+                Res::Inherit => issuer.get(f).clone(),
+                Res::Blocks(_) if kind_is_ta => spec.res(f).set(),
+                Res::Blocks(_) => spec.res(f).set().intersection(issuer.get(f)),
+            };
+        }
+        issuer = next;
+        certs.push(spec);
+    }
+    Chain {
+        strict: r.strict,
+        ta_aki: r.ta_aki,
+        certs,
+        leaf,
+        sibling_key: (r.key_base as usize + 5) as u8 % POOL_SIZE as u8,
+    }
+}
+
+fn chain_strategy(_: Tier) -> BoxedStrategy<Chain> {
+    chain_r().prop_map(|r| make_chain(&r, false)).boxed()
+}
+
+fn tamper_strategy(_: Tier) -> BoxedStrategy<TamperCase> {
+    (chain_r(), any::<u16>(), 0u8..9, any::<u64>(), any::<u64>(), any::<u64>())
+        .prop_map(|(r, idx, kind, a, b, c)| TamperCase { chain: make_chain(&r, true), t: Tamper { idx, kind, a, b, c } })
+        .boxed()
+}
 
 pub fn property() -> Property {
-    Property { id: "C01", rule: "", assumptions: vec![], subs: vec![] }
+    Property {
+        id: "C01",
+        rule: RULE,
+        assumptions: vec![
+            "RSA-SHA256 (aws-lc) rejects every modified signed byte / signature bit; bit flips are confined to the TBS bytes and the signature value",
+            "certificates are profile-conforming by construction (names, key usage, SIA/AIA/CRL-DP per kind); only time, issuer, key identifiers, signature and resources vary",
+            "claimed block lists are handed to the builder pre-normalised (ascending, disjoint, non-adjacent), so the check does not depend on resource-set construction (C03)",
+            "validity windows and evaluation times lie in years 1770-2400; evaluation times have millisecond resolution",
+        ],
+        subs: vec![
+            PropSub {
+                name: "chains",
+                strategy: chain_strategy,
+                cases: |t| t.pick(40_000, 1_000_000),
+                run: run_chain,
+                floors: &[
+                    ("accepted", 0.2),
+                    ("rejected", 0.2),
+                    ("reject-time", 0.1),
+                    ("reject-overclaim", 0.1),
+                    ("fam-inherit", 0.2),
+                    ("policy-trim", 0.2),
+                    ("overclaim-trimmed", 0.1),
+                    ("rel-subset", 0.2),
+                    ("rel-equal", 0.2),
+                    ("rel-partial", 0.06),
+                    ("rel-disjoint", 0.06),
+                    ("rel-superset", 0.1),
+                    ("touch-0", 0.2),
+                    ("touch-max", 0.2),
+                    ("time-on-edge", 0.2),
+                    ("time-1ms-off-edge", 0.15),
+                    ("leaf-router", 0.1),
+                    ("depth-2", 0.15),
+                ],
+            }
+            .boxed(),
+            PropSub {
+                name: "tamper",
+                strategy: tamper_strategy,
+                cases: |t| t.pick(50_000, 1_200_000),
+                run: run_tamper,
+                floors: &[
+                    ("tamper-tbs-bit", 0.05),
+                    ("tamper-sig-bit", 0.05),
+                    ("tamper-sibling-issuer", 0.05),
+                    ("tamper-wrong-signer", 0.05),
+                    ("tamper-time", 0.05),
+                    ("tamper-aki", 0.05),
+                    ("tamper-ski", 0.05),
+                    ("tamper-block", 0.07),
+                    ("tamper-block-trim", 0.03),
+                    ("tamper-block-refuse", 0.03),
+                ],
+            }
+            .boxed(),
+        ],
+    }
 }
